@@ -160,6 +160,28 @@ def pollthread_writes_then_reads_then_started():
     return 'bool', cbool(ok)
 
 
+def writeinitparams_absorbs_write_errors():
+    """writeInitParams: one loop over list(self.writeDict); the call wfunc(value) stands in a try statement whose
+    handlers (SECoPError, then Exception) only log: no handler raises, returns, breaks or continues, so that a failing
+    write never keeps the remaining configured values from being written"""
+    f = _m('writeInitParams')
+    loops = [s for s in f.body if isinstance(s, ast.For)]
+    if len(loops) != 1 or src(loops[0].iter) != 'list(self.writeDict)':
+        raise Shape('writeInitParams: loop over list(self.writeDict) not found')
+    tries = [t for t in walk_type(loops[0], ast.Try)
+             if any(src(c.func) == 'wfunc' for c in walk_type(ast.Module(body=t.body, type_ignores=[]), ast.Call))]
+    if len(tries) != 1:
+        raise Shape('writeInitParams: try around wfunc(value) not found')
+    t = tries[0]
+    types = [src(h.type) if h.type is not None else None for h in t.handlers]
+    ok = types == ['SECoPError', 'Exception'] and not t.finalbody and not t.orelse
+    for h in t.handlers:
+        ok = ok and not any(walk_type(h, typ) for typ in (ast.Raise, ast.Return, ast.Break, ast.Continue))
+    # nothing of the loop body leaves the loop early
+    ok = ok and not any(walk_type(loops[0], typ) for typ in (ast.Raise, ast.Return, ast.Break))
+    return 'bool', cbool(ok)
+
+
 def startmodule_starts_thread_iff_polled():
     """startModule: `if self.polledModules: self.__poller = mkthread(self.__pollThread, self.polledModules,
     start_events.get_trigger())`"""
@@ -259,7 +281,7 @@ def start_timeout():
 FACTS = [get_module_early_then_init_then_flag, processcfg_order, processcfg_initialises_every_module,
          descriptive_data_initialises_exported,
          shutdown_stops_pollers_first, sorted_modules_reversed_postorder, pollthread_writes_then_reads_then_started,
-         startmodule_starts_thread_iff_polled, initmodule_registers_at_io, attached_get_checks,
+         writeinitparams_absorbs_write_errors, startmodule_starts_thread_iff_polled, initmodule_registers_at_io, attached_get_checks,
          hasio_creates_io_once_per_uri, multievent_set_only_when_all_triggered, start_timeout]
 
 
